@@ -408,6 +408,58 @@ pub fn output_side_writer(input: &[u8], src: Fmt, to: Fmt, doc: &Val, k: usize, 
     }
 }
 
+/// The same promise at the command line: what the binary prints on stderr is "xt error in <input>: "
+/// followed by the library's message for that input IN FULL, and a newline - also when that message is
+/// many kilobytes long (parsers quote the offending line, serializers prefix the path of keys).
+pub fn cli_diagnostic(idx: usize, acc: &mut Acc) {
+    use crate::procmon::{self, Run, Scratch, Status, StdinKind, StdoutKind};
+    let a = idx % 5;
+    let (name, src, content): (String, Fmt, Vec<u8>) = match idx % 7 {
+        0 => ("long.toml".into(), Fmt::Toml, format!("k = \"{}{}", "x".repeat(a), "\u{65e5}\u{672c}".repeat(1500 + 300 * a)).into_bytes()),
+        1 => ("long.toml".into(), Fmt::Toml, format!("title = \"ok\"\nk = [{} oops\n", "1, ".repeat(3000 + a)).into_bytes()),
+        2 => {
+            // a null key deep under long keys: serde_yaml / serde_json prefix nothing, but the target's reason must survive
+            let keys: Vec<String> = (0..6).map(|i| format!("{}{}", "k".repeat(700 + a), i)).collect();
+            let mut y = String::new();
+            for (d, k) in keys.iter().enumerate() {
+                y.push_str(&format!("{}{}:\n", "  ".repeat(d), k));
+            }
+            y.push_str(&format!("{}? [1, 2]\n{}: v\n", "  ".repeat(6), "  ".repeat(6)));
+            ("deep.yaml".into(), Fmt::Yaml, y.into_bytes())
+        }
+        3 => ("bad.json".into(), Fmt::Json, format!("{{\"a\": [{} }}\n", "1, ".repeat(10 + a)).into_bytes()),
+        4 => ("bad.yaml".into(), Fmt::Yaml, format!("a: [1, 2\nb: {}\n", "x".repeat(50 * a)).into_bytes()),
+        5 => ("bad.msgpack".into(), Fmt::Msgpack, vec![0x93, 0x01, 0xc1]),
+        _ => ("long.json".into(), Fmt::Json, format!("{{\"{}\": nul}}", "\u{e9}".repeat(3000 + a)).into_bytes()),
+    };
+    let to = if idx % 7 == 2 { Fmt::Json } else { ALL[(idx / 7) % 3] };
+    let via_stdin = (idx / 21) % 2 == 1;
+    // the library's own message for this input in this supply mode
+    let lib = if via_stdin { run_mode(&content, &Mode::Reader(Sched::All), Some(src), to) } else { run_slice(&content, Some(src), to) };
+    let Verdict::Err(lib_msg) = &lib.verdict else {
+        acc.count("cli_diagnostic_skipped_input_translates");
+        return;
+    };
+    let sc = Scratch::new();
+    sc.file(&name, &content);
+    let argv: Vec<String> = if via_stdin { vec!["-f".into(), src.name().into(), "-t".into(), to.name().into()] } else { vec!["-t".into(), to.name().into(), name.clone()] };
+    let out = procmon::run(Run { bin: &procmon::release_bin(), argv: argv.clone(), cwd: sc.path(), stdin: if via_stdin { StdinKind::Bytes(content.clone()) } else { StdinKind::Null }, stdout: StdoutKind::Pipe, wall_secs: 60, cpu_secs: 30 });
+    acc.evals += 1;
+    acc.count("cli_diagnostics_compared");
+    acc.max("longest_cli_diagnostic_bytes", out.stderr.len() as u64);
+    if matches!(out.status, Status::Timeout | Status::SpawnError(_)) {
+        acc.inconclusive += 1;
+        return;
+    }
+    let want = format!("xt error in {}: {}\n", if via_stdin { "standard input" } else { name.as_str() }, lib_msg);
+    if out.status != Status::Exit(1) || out.stderr != want.as_bytes() {
+        let got = String::from_utf8_lossy(&out.stderr);
+        acc.violation(Violation { sig: format!("command line: the diagnostic is not the library's message in full ({} bytes expected)", if want.len() > 4096 { "> 4096" } else { "<= 4096" }), case: json!({"part": "cli_diagnostic", "index": idx}), observed: format!("status {}; stderr has {} bytes, ends [{}]", out.status.show(), out.stderr.len(), preview(got.as_bytes().get(got.len().saturating_sub(80)..).unwrap_or(&[]), 80)), expected: format!("exit 1 and the {} bytes 'xt error in <input>: <message>' ending [{}]", want.len(), preview(want.as_bytes().get(want.len().saturating_sub(80)..).unwrap_or(&[]), 80)) });
+    } else if want.len() > 4096 {
+        acc.count("cli_diagnostics_longer_than_4_kib_in_full");
+    }
+}
+
 pub fn run(ctx: &Ctx) -> i32 {
     let n = ctx.size(1500, 200000);
     let seed = ctx.seed;
@@ -565,15 +617,29 @@ pub fn run(ctx: &Ctx) -> i32 {
         }
     });
     acc.merge(enc_acc);
-    let rule = format!("{} generated common-model documents; (a) each spelled in one format in turn and damaged at EVERY byte position (<= 200 B; sampled above) by deleting the byte, inserting a stray structural byte, inserting a control / invalid UTF-8 byte, or truncating there, slice and reader alternating, confirmed malformed by the independent reader, judged for the three streaming targets; (a') YAML in each of UTF-16LE/BE, UTF-32LE/BE with one ill-formed code unit behind 0..39 characters, with and without a byte order mark, slice and reader: the message names the unit and its byte offset in the input as given; (b) one unrepresentable construct (null key / sequence key -> JSON, binary -> YAML, null -> TOML, 65..128-bit integer -> MessagePack) planted at a random path (depth <= 6) from every source that can spell it; (c) every third document: the writer fails at EVERY byte of the fault-free output (sampled above 600 B), three fault styles (short accept then fail, reject the crossing write, accept nothing more: Ok(0) - whose cause is std's WriteZero), slice and reader; distinct non-trivial = distinct documents", n);
+    let n_cli = ctx.size(84, 840);
+    let cli_acc = crate::par::run(n_cli, 2, |i, acc| cli_diagnostic(i, acc));
+    acc.merge(cli_acc);
+    let rule = format!("{} generated common-model documents; (a) each spelled in one format in turn and damaged at EVERY byte position (<= 200 B; sampled above) by deleting the byte, inserting a stray structural byte, inserting a control / invalid UTF-8 byte, or truncating there, slice and reader alternating, confirmed malformed by the independent reader, judged for the three streaming targets; (a') YAML in each of UTF-16LE/BE, UTF-32LE/BE with one ill-formed code unit behind 0..39 characters, with and without a byte order mark, slice and reader: the message names the unit and its byte offset in the input as given; (b) one unrepresentable construct (null key / sequence key -> JSON, binary -> YAML, null -> TOML, 65..128-bit integer -> MessagePack) planted at a random path (depth <= 6) from every source that can spell it; (c) every third document: the writer fails at EVERY byte of the fault-free output (sampled above 600 B), three fault styles (short accept then fail, reject the crossing write, accept nothing more: Ok(0) - whose cause is std's WriteZero), slice and reader; (d) at the command line, failing inputs whose library message is short or many kilobytes long (a quoted 5-10 KB line, long keys, multi-byte text), file and stdin: stderr is exactly 'xt error in <input>: <the library's message>' and a newline; distinct non-trivial = distinct documents", n);
     ev::finish(
-        Finish { ctx, level: "fault_enumeration", rule, assumptions: vec!["equality with the message the source crate gives when called directly is NOT demanded (it legitimately differs with the visitor and reader kind)".into(), "reference reasons come from handing the construct / the same failing writer directly to the target crate inside the harness".into()], extra: serde_json::Map::new(), exhaustive: false, min_distinct: 300, must_reach: vec![("input_side_messages_ok".into(), 5000), ("value_reason_present".into(), 1000), ("writer_reason_present".into(), 5000)] },
+        Finish { ctx, level: "fault_enumeration", rule, assumptions: vec!["equality with the message the source crate gives when called directly is NOT demanded (it legitimately differs with the visitor and reader kind)".into(), "reference reasons come from handing the construct / the same failing writer directly to the target crate inside the harness".into()], extra: serde_json::Map::new(), exhaustive: false, min_distinct: 300, must_reach: vec![("cli_diagnostics_longer_than_4_kib_in_full".into(), 20), ("illformed_code_unit_positions_checked".into(), 1000), ("input_side_messages_ok".into(), 5000), ("value_reason_present".into(), 1000), ("writer_reason_present".into(), 5000)] },
         acc,
     )
 }
 
 pub fn replay(v: &Value) -> i32 {
     let c = &v["case"];
+    if c["part"].as_str() == Some("cli_diagnostic") {
+        let mut acc = Acc::default();
+        cli_diagnostic(c["index"].as_u64().unwrap_or(0) as usize, &mut acc);
+        return if acc.vio_count > 0 {
+            println!("VIOLATION property=C11 replay=<this file> (reproduced): {}", acc.violations[0].observed);
+            1
+        } else {
+            println!("not reproduced");
+            0
+        };
+    }
     let Some(input) = c["input_hex"].as_str().and_then(unhex) else {
         println!("bad replay case");
         return 2;
